@@ -25,12 +25,12 @@ func main() {
 		}
 		sort.Strings(names)
 		fmt.Fprintf(os.Stderr, "usage: vdrv <engine> args...; engines: %v\n", names)
-		os.Exit(2)
+		os.Exit(4) // not 2: that is the exit code of a Go panic / fatal error of the code under test
 	}
 	e, ok := engines[os.Args[1]]
 	if !ok {
 		fmt.Fprintf(os.Stderr, "unknown engine %q\n", os.Args[1])
-		os.Exit(2)
+		os.Exit(4)
 	}
 	if err := e(os.Args[2:]); err != nil {
 		fmt.Fprintf(os.Stderr, "vdrv %s: %v\n", os.Args[1], err)
